@@ -113,6 +113,11 @@ dtz_enrichz(struct dt_dt_s d, zif_t zone)
 
 	/* convert date/time part to unix stamp */
 	d_unix = dt_to_unix_epoch(d);
+	if (UNLIKELY(d.sandwich && d.t.hms.s >= SECS_PER_MIN)) {
+		/* an inserted second counts like the midnight after it but
+		 * the offset in force is still the one of the second before */
+		d_unix--;
+	}
 	d_locl = zif_local_time(zone, d_unix);
 	if (LIKELY((zdiff = d_locl - d_unix))) {
 		/* let dt_dtadd() do the magic */
